@@ -103,7 +103,7 @@ class StartupPath:
             if n < first:
                 continue
             last = ef['callee'].split('::')[-1]
-            if last in TYPED_WRITES and len(ef['args']) >= 2:
+            if last in TYPED_WRITES and len(ef['args']) >= 2 and 'ByteOrder>::' not in ef['callee'] and 'byteorder::ByteOrder::' not in ef['callee']:
                 out.append(('typed', TYPED_WRITES[last], ef['args'][1], ef))
             elif last in ('write_all', 'write') and ('io::Write' in ef['callee'] or 'File' in ef['callee']) and len(ef['args']) >= 2:
                 buf = ef['pointees'][1] if len(ef.get('pointees') or []) > 1 and ef['pointees'][1] is not None else ef['args'][1]
